@@ -10,9 +10,8 @@ EXTENDS Integers, Sequences, FiniteSets
 Tag(p) == 100 + p
 Range(s) == { s[i] : i \in DOMAIN s }
 Mask(s, m) ==                       \* s[m] of numpy: keep the entries whose mask is TRUE, in order
-   LET RECURSIVE F(_)
-       F(i) == IF i > Len(s) THEN <<>> ELSE (IF m[i] THEN <<s[i]>> ELSE <<>>) \o F(i + 1)
-   IN F(1)
+   LET idx == SelectSeq([i \in 1..Len(s) |-> i], LAMBDA i : m[i])
+   IN [k \in 1..Len(idx) |-> s[idx[k]]]
 
 Empty == [iv |-> [pid |-> <<>>, alive |-> <<>>, tag |-> <<>>, age |-> <<>>], pv |-> [ptag |-> <<>>], npid |-> 0]
 Len_(st) == Len(st.iv.pid)
